@@ -2,6 +2,7 @@ use crate::engine::{DynModel, Report, Tier};
 
 pub mod aggx;
 pub mod fresh;
+pub mod mask;
 pub mod hist;
 pub mod soak;
 pub mod tsurf;
